@@ -335,8 +335,9 @@ KNOWN = [
          text='im2col with a non-square input (H != W) fails its GPU-vs-CPU verification (or runs the emulator into undecodable code) '
               'for every kernel/stride/padding/dilation choice; all square inputs pass; conv2d passes for the same shapes'),
     dict(id='conv2d-padding-out-of-bounds', witness='conv2d -N=2 -H=9 -pad-y=1', timeout=60,
-         match=lambda c: c['w'] == 'conv2d' and (vals(c).get('pad-x', 0) >= 1 or vals(c).get('pad-y', 0) >= 1) and vals(c).get('H', 28) != vals(c).get('W', 28),
-         text='conv2d with a non-square input and padding panics "page not found in page table" in emulation for some shapes '
+         match=lambda c: c['w'] == 'conv2d' and vals(c).get('H', 28) != vals(c).get('W', 28) and
+         (vals(c).get('pad-x', 0) >= 1 or vals(c).get('pad-y', 0) >= 1 or vals(c).get('N', 1) * vals(c).get('C', 1) >= 8),
+         text='conv2d with a non-square input and padding, or with N*C >= 8 input planes, panics "page not found in page table" in emulation for some shapes '
               '(conv2d -N=2 -H=9 -pad-y=1 with the default W=28; -N=1 -C=3 -H=28 -W=8 -kernel-width=1 -pad-x=1: vAddr 0x7e3): a kernel of the convolution addresses memory outside '
               'its buffers, which faults only when the address leaves the mapped pages (N=1, square inputs, W=8/11 pass)'),
     dict(id='stencil2d-column-count', witness='stencil2d -row=64 -col=66', timeout=60,
@@ -382,6 +383,38 @@ def domain_ok(c):
         dil = max(v.get('dilate-x', 1), v.get('dilate-y', 1))
         if dil * (k - 1) + 1 > min(v.get('H', 28), v.get('W', 28)):
             return False
+    return True
+
+
+def cost_ok(c):
+    """run-time budget of a drawn combination (independent large values can multiply to minutes of emulation)"""
+    v, w = vals(c), c['w']
+    g = v.get
+    if w == 'kmeans':
+        if c['timing'] and g('points', 1024) * g('features', 32) * max(1, g('max-iter', 5)) > 2e5:
+            return False
+        return g('points', 1024) * g('features', 32) <= 70000 and g('points', 1024) * g('features', 32) * g('clusters', 5) * max(1, g('max-iter', 5)) <= 5e6
+    if w == 'matrixmultiplication':
+        return g('x', 64) * g('y', 64) * g('z', 64) <= 2e7
+    if w == 'simpleconvolution':
+        return g('width', 254) * g('height', 254) * g('mask-size', 3) ** 2 <= 1.5e7
+    if w == 'vectoradd':
+        return g('width', 1024) * g('height', 1024) <= 1e6
+    if w == 'nbody':
+        return g('particles', 1024) ** 2 * max(1, g('iter', 8)) <= 1.5e7
+    if w == 'pagerank':
+        nnz = g('node', 16) ** 2 * g('sparsity', 0.001)
+        return nnz <= 1e6 and nnz * max(1, g('iterations', 16)) <= 3e6
+    if w == 'spmv':
+        return g('dim', 128) ** 2 * g('sparsity', 0.01) <= 2e6
+    if w == 'stencil2d':
+        return g('row', 64) * g('col', 64) * max(1, g('iter', 1)) <= 3e6
+    if w == 'fir':
+        return g('length', 4096) * g('taps', 16) <= 5e6
+    if w == 'atax' or w == 'bicg':
+        return g('x', 4096) * g('y', 4096) <= 1.2e6
+    if w == 'conv2d':
+        return (g('N', 1) * g('C', 1) * g('H', 28) * g('W', 28) * g('output-channel', 3) * g('kernel-height', 3) * g('kernel-width', 3)) <= 5e6
     return True
 
 
@@ -449,7 +482,7 @@ def draw_matrix(rng, n, seen):
     while len(out) < n and tries < 200 * n:
         tries += 1
         c = draw(rng)
-        if not domain_ok(c):
+        if not domain_ok(c) or not cost_ok(c):
             continue
         k = known_class(c)
         if k:
